@@ -930,7 +930,7 @@ def run(check):
     ccases, dcases = [], []
     for label, spec in fixed_specs():
         run_spec(check, label, spec, tier, stats, ccases, dcases)
-    nclean, ndirty, npatty = (100, 100, 60) if tier == "quick" else (450, 450, 250)
+    nclean, ndirty, npatty = (80, 80, 50) if tier == "quick" else (450, 450, 250)
     for i in range(nclean):
         run_spec(check, 'clean%d' % i, gen_spec(rng, 'clean'), tier, stats, ccases, dcases, full_requests=(i % 3 == 0 or tier != 'quick'))
     for i in range(ndirty):
